@@ -83,13 +83,15 @@ class Prop:
     case_vo = "theories/Cases/CaseC08.vo"
     run_fn = "run08"
     shard = 250
-    rule = ("plain trees with default data_ids and pairwise different data among siblings and parent/child; one case = tree x "
+    rule = ("plain trees with default data_ids and pairwise different data among siblings (small scopes: all data different; random: clones "
+            "anywhere else, sometimes directly below their original = the region where D24 makes the copying form raise); one case = tree x "
             "verdict per node from {True, False/None, SkipBranch()/SkipBranch(and_self=True), SkipBranch(and_self=False), SelectBranch, "
             "StopTraversal/StopIteration} x per-node flavour (returned or raised, class or instance) x start (whole tree or one node); "
             "every case runs Tree.filtered, Tree.copy(predicate=), Tree.filter or Node.filtered, Node.copy(predicate=), "
-            "Node.copy(add_self=False, predicate=), Node.filter and logs every predicate call.  quick: every ordered forest <= 3 nodes x all "
-            "6^n verdict assignments x all starts, 4-5 nodes sampled per (shape, start), random 6-14 nodes (clones, sometimes directly below their original); thorough: <= 4 "
-            "nodes exhaustive, 5 sampled, more random.  distinct = distinct (shape, labels, verdicts, start); non-trivial = a non-empty "
+            "Node.copy(add_self=False, predicate=), Node.filter, logs every predicate call, and runs the same entry points without a predicate "
+            "(plain copies, ValueError).  quick: every ordered forest <= 3 nodes x all "
+            "6^n verdict assignments x all starts, 4-5 nodes sampled per (shape, start), 300 random trees of 6-14 nodes; thorough: <= 4 "
+            "nodes exhaustive, 5 sampled (100 per shape and start), 2000 random.  distinct = distinct (shape, labels, verdicts, start); non-trivial = a non-empty "
             "proper subset of the scanned nodes is kept")
     exhaustive_note = "all forest shapes <= N nodes x all 6^n verdict assignments x all starts (N=3 quick, 4 thorough)"
     assumptions = [
